@@ -397,7 +397,7 @@ func (f *Frame) uninterpCall(st *State, prefix string, fv *Term, args []*Term, s
 	return out
 }
 
-var pureIfacePrefixes = []string{consulMod + "/acl.Authorizer."}
+var pureIfacePrefixes = []string{consulMod + "/acl.Authorizer.", consulMod + "/agent/structs.ACLIdentity."}
 
 func ifaceMethodName(recvT types.Type, fn *types.Func) string {
 	t := types.Unalias(recvT)
